@@ -77,6 +77,23 @@ def strategy_(d, tier):
         opts["f"] = pick
     if sel_seg is not None:
         opts["segment"] = SEGN[sel_seg]
+    # records of ANOTHER granularity that the run does not select (other segment / CPU outside the -f list): they
+    # must not influence the image ("records selected in one run have one granularity" still holds)
+    if ("f" in opts or sel_seg is not None) and d.bool(0.6):
+        og = d.choice([g for g in (1, 2, 4) if g != gran])
+        ocpu = d.choice({1: pgen.CPUS_G1, 2: [0x70, 0x71, 0x74], 4: pgen.CPUS_G4}[og])
+        if "f" in opts and ocpu in opts["f"]:
+            opts["f"] = [c for c in opts["f"] if c != ocpu] or [0x7f]
+        selseg = sel_seg if sel_seg is not None else 1
+        oseg = d.choice([x for x in (1, 2, 4) if x != selseg]) if "f" not in opts else d.choice([1, 2, 4])
+        tgt = files[d.int(0, len(files) - 1)]
+        for _ in range(d.int(1, 2)):
+            n = d.int(1, 12)
+            lim = next((i for i, r_ in enumerate(tgt["recs"]) if r_["kind"] == "entry"), len(tgt["recs"]))
+            tgt["recs"].insert(d.int(0, lim),
+                               dict(kind="data", cpu=ocpu, seg=oseg, gran=og, addr=d.choice(bases) + d.int(0, 80),
+                                    data=bytes((7 * i + 3) & 0xff for i in range(n * og)).hex(), form="long"))
+        opts["foreign"] = og
     opts["sty"] = [d.choice(["dec", "dollar", "0x", "h"]) for _ in range(6)]
     opts["order"] = d.bool()
     return dict(files=files, opts=opts)
@@ -244,11 +261,13 @@ def execute(case):
     ndata = sum(1 for f in case["files"] for r_ in f["recs"] if r_["kind"] == "data")
     if ref["nsel"] < ndata:
         nt.append("filtered")
+    if o.get("foreign"):
+        nt.append("foreign-gran")
     classes += nt
     key = None
     if nt:
         key = "|".join([",".join(nt), str(ref["gran"]), str(len(case["files"])),
-                        ",".join(sorted(k for k in o if k not in ("sty", "order"))), o.get("m", ""), o.get("S", ""),
+                        ",".join(sorted(k for k in o if k not in ("sty", "order", "foreign"))), o.get("m", ""), o.get("S", ""),
                         str(ref["nsel"])])
     if r.status != 0:
         return engine.bad("p2bin exit status %s on a well-formed request" % r.status, key, classes, **detail)
